@@ -5,6 +5,7 @@ value spec  : plain JSON, or a dict with "$":
    {"$":"r","i":n}                     result of this client's op n
    {"$":"dt","f":[y,m,d,H,M,S,us],"tz":key|null|"local","fold":1,"raise":false}
    {"$":"naive","f":[...],"fold":0}
+   {"$":"dt_raw","f":[...],"tz":key|offset,"fold":0}   pendulum.DateTime(..., tzinfo=<foreign tzinfo>)
    {"$":"date","f":[y,m,d]}   {"$":"time","f":[h,m,s,us]}
    {"$":"dur","kw":{...}}     {"$":"absdur","kw":{...}}
    {"$":"iv","a":spec,"b":spec,"abs":false}        pendulum.interval(a,b,abs)
@@ -113,6 +114,12 @@ def build(spec, env: Env | None = None):
 
         tz = Timezone.from_file(io.BytesIO(tzif_bytes(spec["zone"])))
         return pendulum.datetime(*spec["f"], tz=tz, fold=spec.get("fold", 1))
+    if t == "dt_raw":
+        # a DateTime straight from the inherited constructor: its tzinfo is the *foreign* object
+        # (zoneinfo.ZoneInfo / datetime.timezone), not a pendulum zone
+        z = spec["tz"]
+        tzi = zoneinfo.ZoneInfo(z) if isinstance(z, str) else _dt.timezone(_dt.timedelta(seconds=z))
+        return pendulum.DateTime(*spec["f"], tzinfo=tzi, fold=spec.get("fold", 0))
     if t == "naive":
         return pendulum.naive(*spec["f"], fold=spec.get("fold", 1))
     if t == "date":
